@@ -322,7 +322,7 @@ def r4_shape_to_spacing(ctx):
 
 def r5_profile(ctx):
     qn = "verde.coordinates.profile_coordinates"
-    K.roles_rule(ctx, "R5", [qn], with_return=False, require={qn: [{"arctan2-args"}]})
+    K.roles_rule(ctx, "R5", [qn], with_return=False)      # an arctan2 sink is typed when there is one; direction cosines need none
     sp = Space()
     bi, bs = Builder(sp), Builder(sp)
     want = [q_ for q_ in spec.paths("coords.profile_coordinates") if q_.exit == "return"][0].value
@@ -355,6 +355,9 @@ def r5_profile(ctx):
                 break
             if r is None and res is True:
                 res = None
+        zero = K.unguarded_distance_division(p, v)
+        ctx.check("R5", "%s|defined-for-a-zero-length-segment|%s" % (qn, tag), False if zero is not None else True, "no division by the length of the segment (the documented form uses atan2, which is defined for a zero-length segment)",
+                  bad="the coordinates divide by %s, the length of the segment: point1 == point2 gives 0/0 = NaN instead of `size` copies of the point" % (show(zero)[:70] if zero else ""), fn=qn)
         ctx.check("R5", "%s|formula|%s" % (qn, tag), res, "coordinates == point1 + distances * (cos, sin)(atan2(dN, dE)), distances == linspace(0, |point2 - point1|, size)",
                   bad="profile_coordinates: " + detail, fn=qn, undecided="not comparable: " + detail)
     # sign sensitivity: the direction of the profile must depend on the SIGN of both coordinate differences.  A term depends on a
@@ -373,6 +376,8 @@ def r5_profile(ctx):
                 continue
             odd = odd_leaves(els[k])
             need = Q.sub(("param", "point2"), k)
+            if need not in odd and any(x == ("param", "point2") for c, _v in p.conds for x in walk(c)):
+                continue          # a branch selected by a test on the end points (zero-length segment, ...): judged by the formula comparison only
             ctx.check("R5", "%s|direction-depends-on-sign-of-d%s|%s" % (qn, nm, tag), True if need in odd else False,
                       "the %s of the profile depends on the sign of point2[%d] - point1[%d]" % (nm, k, k),
                       bad="the %s of the profile depends on point2[%d] only through even functions (distance): profiles towards decreasing %s are mirrored" % (nm, k, nm), fn=qn)
